@@ -366,8 +366,8 @@ func (c *specCtx) localByName(name string) (specVal, bool) {
 		for i := len(b.Instrs) - 1; i >= 0 && best == nil; i-- {
 			switch d := b.Instrs[i].(type) {
 			case *ssa.DebugRef:
-				if d.IsAddr || b == c.block {
-					continue // values defined in the current block itself are not stable names
+				if d.IsAddr || (b == c.block && isLoopHeader(b)) {
+					continue // values defined in a loop header itself are not stable names at the cut
 				}
 				if id, ok := d.Expr.(*ast.Ident); ok && id.Name == name {
 					if _, bound := c.fr.env[d.X]; bound || isConstVal(d.X) {
@@ -1477,3 +1477,4 @@ func structFieldNames(t types.Type) []string {
 	}
 	return out
 }
+
